@@ -85,7 +85,7 @@ func mergeOps(ts []tok) []tok {
 }
 
 var identRename = map[string]string{
-	"old": "verif_old", "Z": "verif_Z", "Is": "verif_Is", "As": "verif_As", "sameArray": "verif_sameArray", "unfold": "verif_unfold", "same": "verif_same", "has": "verif_has", "invoked": "verif_invoked", "streamPos": "verif_streamPos", "calls": "verif_calls", "tally": "verif_tally", "built": "verif_built", "bempty": "verif_bempty", "bsingle": "verif_bsingle", "lastLoad": "verif_lastLoad", "lastCasOld": "verif_lastCasOld", "lastCasNew": "verif_lastCasNew", "lastCasOK": "verif_lastCasOK", "rangeseen": "verif_rangeseen", "fresh": "verif_fresh", "entry": "verif_entry", "offset": "verif_offset", "f64bits": "verif_f64bits", "f64frombits": "verif_f64frombits",
+	"old": "verif_old", "Z": "verif_Z", "Is": "verif_Is", "As": "verif_As", "sameArray": "verif_sameArray", "unfold": "verif_unfold", "same": "verif_same", "has": "verif_has", "invoked": "verif_invoked", "streamPos": "verif_streamPos", "calls": "verif_calls", "tally": "verif_tally", "built": "verif_built", "bempty": "verif_bempty", "written": "verif_written", "utf8rune": "verif_utf8rune", "utf8size": "verif_utf8size", "xxh64": "verif_xxh64", "bsingle": "verif_bsingle", "lastLoad": "verif_lastLoad", "lastCasOld": "verif_lastCasOld", "lastCasNew": "verif_lastCasNew", "lastCasOK": "verif_lastCasOK", "rangeseen": "verif_rangeseen", "fresh": "verif_fresh", "entry": "verif_entry", "offset": "verif_offset", "f64bits": "verif_f64bits", "f64frombits": "verif_f64frombits",
 	"callPanicked": "verif_callPanicked", "callReturned": "verif_callReturned", "callResult": "verif_callResult",
 	"bytesOf": "verif_bytesOf", "bytesOfStr": "verif_bytesOfStr", "bcat": "verif_bcat", "bxor": "verif_bxor", "btake": "verif_btake",
 	"blen": "verif_blen", "bat": "verif_bat", "sha1of": "verif_sha1of", "unhex": "verif_unhex", "hexok": "verif_hexok",
